@@ -22,7 +22,7 @@ RULE = (
     "exact interior at depth >= 1e-3 L (ValueError); circles/spheres/ellipses/ellipsoids with a zero/negative/NaN axis and "
     "spheropolytopes with a negative radius (ValueError); for every class an aliasing probe: every array argument is bit-identical "
     "after construction and shares no memory with anything reachable from the new object.  All x placements up to 10 L from the "
-    "origin.  Also: convex polygons with a prescribed (non-unit) normal on either side in every input order; invalid sets in every order.  non-trivial = invalid input or non-identity order/placement."
+    "origin (invalid convex-polygon sets also 300 L, 5000 L and 2^24 L away).  Also: convex polygons with a prescribed (non-unit) normal on either side in every input order; invalid sets in every order.  non-trivial = invalid input or non-identity order/placement."
 )
 ASSUMPTIONS = ["degenerate inputs on the decision boundary (collinear neighbours, touching edges, coplanar extra points) are excluded by the exact classifier"]
 BOUNDS = {"quick": {"polygon": "P2(3) all; simple/crossing P2(4) every 6th, P2(5) every 60th", "convex": "CP2(<=5) every 5th x all orders; S3(4) every 6th, S3(5) every 30th x all orders"}, "thorough": {"polygon": "P2(4) every 2nd, P2(5) every 10th", "convex": "CP2 all; S3(4) all, S3(5) every 5th"}}
@@ -70,6 +70,12 @@ def cases(tier):
                 for pos in (0, n // 2, n):
                     out.append({"t": "convex2-interior", "cls": cls, "poly": [list(p) for p in c], "kind": kind, "pos": pos, "pl": PL3[k % 8]})
             k += 1
+        # the same invalid sets far from the origin (wave-7 seed W7_C15a: a convexity tolerance proportional to the
+        # coordinate magnitude instead of the size accepts an interior point once offset/size is large)
+        for j, far in enumerate((300, 5000, 2**24)):
+            for kind in ("centroid", "near-edge"):
+                cls = ("ConvexPolygon", "ConvexSpheropolygon")[(i + j + len(kind)) % 2]
+                out.append({"t": "convex2-interior", "cls": cls, "poly": [list(p) for p in c], "kind": kind, "pos": (i + j) % (n + 1), "pl": PL3[(k + j) % 8], "far": far})
         # the invalid set in EVERY order (a cycle that winds twice turns the same way at every vertex)
         if n <= 4 and (not q or i % 10 == 0):
             for o in itertools.permutations(range(n + 1)):
@@ -259,6 +265,8 @@ def run_case(case):
         if case.get("order"):
             pts = [pts[i] for i in case["order"]]
         F, s, R, tt = place(case, pts)
+        if case.get("far"):
+            F = F + float(case["far"]) * Llat * s * np.array([3.0, -2.0, 5.0]) / math.sqrt(38.0)
         expect_value_error(rep, case["cls"], "interior-point-" + case["kind"], case, lambda: cls(F.copy(), *args))
         return rep
     if t.startswith("convex3"):
